@@ -392,6 +392,8 @@ def check(ctx):
                         ln = dv.last_node(res, g.exit, st, lambda n: n.kind == 'stmt' and '_part' in n.src())
                         o.fail(P, f'{c.name}.{e}', ln.ast if ln else e, 'a part in process leaves the input slot without its cycle timer having fired', node=ln,
                                file=c.mod.path, path=res.path_lines(g.exit, st))
+    obs.append(ctx.shared('c01', 'C01.5', 'C06.10', 'the cycle timer of every accepted part is an event: every request is queued, for the instant, the device and the action it was '
+                          'made for (a timer that is dropped as the twin of a cancelled one never fires and the part is never released)'))
     obs.append(ctx.shared('c07', 'C07.1', 'C06.9', 'the remaining cycle time survives a shutdown because the pause length now - paused_at is added on resume; that needs every '
                           'paused timer to be stamped with the time of *this* pause'))
     return obs
